@@ -18,7 +18,9 @@ RULE = ("boundary schedules first, for both RetryCertAfterInError settings: thre
         "Agglayer stage; a certificate going InError at each stage {Pending, Proven, Candidate} with a block arriving before the "
         "replacement, replaced by a status tick or by the next epoch, failing again, then settling; scripted Agglayer failures on the "
         "send and on the poll; empty blocks / empty ranges; ranges cut by MaxCertSize to a prefix (1 byte, 300, 4000); claims-only "
-        "certificates; pre-synced history with StartL2Block > 0 (start LER = the real tree's root there). Then random walks of 20-60 "
+        "certificates; pre-synced history with StartL2Block > 0 (start LER = the real tree's root there); certificate tables that exist "
+        "before the sender starts (restart: last certificate settled / in error / pending; a row in error rebuilt from version-0 "
+        "metadata with FromBlock = 0, which must never be replaced). Then random walks of 20-60 "
         "events over {block with 0-2 bridges and 0-1 claims (30% empty, block numbers may skip), epoch tick and status tick with "
         "MaxCertSize from {0,1,200,400,3100,6000}, Agglayer moves its latest certificate (biased to the natural next stage, 25% InError), "
         "move of a random certificate to a random status, next Agglayer call fails}, field values from {0,1,2^32-1 / 0x00,0xff..,random / "
@@ -175,8 +177,9 @@ def coq_case(o):
         rterm = "None" if rows == prev_rows else "(Some %s)" % clist([row_obs(r, t) for r in so["rows"] or []])
         prev_rows = rows
         obs.append("(mkST %s %s %d)" % (clist([sub_obs(s, t) for s in so["subs"] or []]), rterm, so["synced"]))
-    body = "mkCase02 %s %d %s %s %s %s" % (
+    body = "mkCase02 %s %d %s %s %s %s %s" % (
         cbool(i["retry"]), i["start_block"], ler, clist([step(s) for s in i.get("pre") or []]),
+        clist([row_obs(r, t) for r in o.get("seeds") or []]),
         clist([step(s) for s in i["steps"]]), clist(obs))
     return "(let T := %s in %s)" % (clist([hexnum(h) for h in t.vals]), body)
 
@@ -186,7 +189,7 @@ def n_subs(o):
 
 
 def nontrivial_key(o):
-    return None if n_subs(o) < 2 else [o["in"]["retry"], o["in"]["start_block"], o["in"]["steps"]]
+    return None if n_subs(o) < 2 else [o["in"]["retry"], o["in"]["start_block"], o["in"].get("seeds"), o["in"]["steps"]]
 
 
 def finding_key(o):
@@ -197,11 +200,12 @@ def distribution(outs):
     d = {"cases": len(outs), "events": 0, "blocks": 0, "epoch_ticks": 0, "status_ticks": 0, "agglayer_moves": 0,
          "scripted_failures": 0, "certificates_received": 0, "replacements_of_inerror": 0, "certificates_settled_max_per_case": 0,
          "cut_ranges": 0, "retry_true": 0, "retry_false": 0, "with_start_block": 0, "bridge_events": 0, "claim_events": 0,
-         "loop_errors": {}, "by_tag": {}}
+         "seeded_tables": 0, "loop_errors": {}, "by_tag": {}}
     for o in outs:
         i = o["in"]
         d["retry_true" if i["retry"] else "retry_false"] += 1
         d["with_start_block"] += 1 if i["start_block"] else 0
+        d["seeded_tables"] += 1 if i.get("seeds") else 0
         d["by_tag"][i.get("tag", "")] = d["by_tag"].get(i.get("tag", ""), 0) + 1
         heights = set()
         for s, so in zip(i["steps"], o["steps"]):
@@ -245,6 +249,8 @@ LEVEL_TEXT = ("Kernel-checked inductive invariant of the send protocol (model of
 LEVEL_NOTE = ("Trusted: Coq kernel + vm_compute; the hand transcription of sendCertificates / CheckPendingCertificatesStatus / PPFlow / "
               "baseFlow into Model/AggsenderProtocol.v (validated by the event-by-event correspondence); the scripted Agglayer; SQLite. "
               "Partial: the aggchain-prover flow (theorems *_fep_partial, model only); goroutine scheduling and process crashes are not "
-              "modelled (C13 covers restarts). Recorded, not claimed: if saveCertificateToStorage exhausts its retries after the Agglayer "
-              "accepted the certificate, the loop goes on with a stale table (the code has a TODO there).")
+              "modelled (C13 covers restarts). Recorded, not claimed (storage faults are outside C02's quantifier): if saveCertificateToStorage "
+              "exhausts its retries after the Agglayer accepted the certificate, the loop goes on with a stale table and the next epoch "
+              "submits a second certificate for the same height while the first is undecided (reproduced on the real loop with "
+              "harness/aggsender/probe_store_exhaustion.jsonl; the code has a TODO there).")
 TECHNIQUE = "Coq proof of an inductive protocol invariant (all schedules) + differential correspondence of the real loop via vm_compute"
